@@ -235,10 +235,11 @@ theorem loop_condition_runs_once_more (fns : List FnDef) (c : Expr) (b : Block) 
   `if`/`else`, `if`, blocks with `let` and expression statements, assignment,
   compound assignment, `while` (any number of iterations), `return`,
   `accept`/`reject` (the operand stays lazy until it is stored in the variant),
-  `Option.Some`/`Option.None` and `?` (leaves the function on `None`).
+  `Option.Some`/`Option.None` and `?` (leaves the function on `None`), record
+  literals (fields left to right, each stored before the next is lowered) and
+  field access (`x.f` is a lazy path read, `e.f` materialises `e`).
   Missing from the model (and so from the theorem): script-function calls,
-  `match` (guards), `for`, user enum constructors, records, field access,
-  lists, f-strings; `drop` instructions and the `stack_slots` bookkeeping; the
+  `match` (guards), `for`, user enum constructors, lists, f-strings; `drop` instructions and the `stack_slots` bookkeeping; the
   passage from structured MIR to the block/label CFG. -/
 
 open RotoV.LowerS in
@@ -418,6 +419,13 @@ example : (lowerFn demoFn3).isSome = true := by decide
 example : bodyValue (evalBlock [] 40 [(0, .int 4)] demoFn3.body).out = some (.verdict false 4) := by decide
 example : bodyValue (evalBlock [] 40 [(0, .int 6)] demoFn3.body).out = some (.verdict true 6) := by decide
 example : bodyValue (evalBlock [] 40 [(0, .int 3)] demoFn3.body).out = some (.opt none) := by decide
+-- … record fields left to right: `(R { a: emit(1, x0), b: { x0 = 9; emit(2, x0) } }).a`
+def demoFn4 : FnDef :=
+  ⟨[0], .last (.field (.record (.cons (.host 0 (.cons (.lit (.int 1)) (.cons (.var 0) .nil)))
+      (.cons (.block (.stmt (.assign 0 (.lit (.int 9))) (.last (.host 0 (.cons (.lit (.int 2)) (.cons (.var 0) .nil)))))) .nil))) 0)⟩
+example : (lowerFn demoFn4).isSome = true := by decide
+example : bodyValue (evalBlock [] 40 [(0, .int 4)] demoFn4.body).out = some (.int 4) := by decide
+example : (evalBlock [] 40 [(0, .int 4)] demoFn4.body).tr = [⟨0, [.int 1, .int 4]⟩, ⟨0, [.int 2, .int 9]⟩] := by decide
 end nonvacuity
 
 end RotoV.C08
